@@ -99,15 +99,32 @@ func (s *hySec) HandleAsyncError(err error) {
 }
 
 type hyModel struct {
+	unknown  bool // the outcome of an operation on this key is not known (a secondary call failed): reads are not judged
 	val      int
 	deadline int64 // 0 none
 	deleted  bool
 	loader   bool
 }
 
+// hyWaitGoroutines waits until the goroutine count is back at what it was before the store
+// of this case was created (maintenance, ticker and workers have exited).
+func hyWaitGoroutines(base int) {
+	for i := 0; i < 2000 && runtime.NumGoroutine() > base; i++ {
+		if i < 100 {
+			runtime.Gosched()
+		} else {
+			time.Sleep(20 * time.Microsecond)
+		}
+	}
+}
+
+// the H6 counters are process-wide: hyBase is their difference at the start of the current
+// case (items a closed store of an earlier case never processed)
+var hyBase int64
+
 func hySettle() bool {
 	deadline := time.Now().Add(20 * time.Second)
-	for i := 0; VerifSecondaryEnqueued.Load() != VerifSecondaryProcessed.Load(); i++ {
+	for i := 0; VerifSecondaryEnqueued.Load()-VerifSecondaryProcessed.Load() != hyBase; i++ {
 		if i < 100 {
 			runtime.Gosched()
 		} else {
@@ -138,9 +155,18 @@ func execHybrid(c hyCase, x *verifkit.Ctx, c15 bool) (fail *verifkit.Failure) {
 	seq := 0
 	loaderCalls := 0
 	model := map[int]*hyModel{}
+	gBase := runtime.NumGoroutine()
 	store := NewStore[int, int](&StoreOptions[int, int]{MaxSize: int64(c.MaxSize), SecondaryCache: sec, Workers: c.Workers, Probability: c.Prob})
-	// (the secondary workers never exit: known finding under C10; they idle once the case is over)
-	defer store.Close()
+	hyBase = VerifSecondaryEnqueued.Load() - VerifSecondaryProcessed.Load()
+	defer func() {
+		// let the workers finish what was handed to them before Close stops them, so that
+		// nothing of this case is still in flight when the next one starts
+		hySettle()
+		store.Close()
+		// the H6 counters are process-wide: wait until this store's workers are gone, so that
+		// none of them can still bump the counters while the next case is running
+		hyWaitGoroutines(gBase)
+	}()
 	var ls *LoadingStore[int, int]
 	if c.Loading {
 		ls = NewLoadingStore(store)
@@ -214,6 +240,9 @@ func execHybrid(c hyCase, x *verifkit.Ctx, c15 bool) (fail *verifkit.Failure) {
 		if !inMem {
 			src = "the secondary tier"
 		}
+		if m != nil && m.unknown {
+			return true, nil
+		}
 		if m == nil {
 			return true, failf("stale/never-written", "Get(%d) returned %d from %s but the key was never written", k, v, src)
 		}
@@ -236,7 +265,7 @@ func execHybrid(c hyCase, x *verifkit.Ctx, c15 bool) (fail *verifkit.Failure) {
 		at := now()
 		for _, k := range verifkit.SortedKeys(model) {
 			m := model[k]
-			if m.deleted || (m.deadline != 0 && at >= m.deadline) {
+			if m.unknown || m.deleted || (m.deadline != 0 && at >= m.deadline) {
 				continue
 			}
 			if memGet(k) != nil {
@@ -295,7 +324,7 @@ func execHybrid(c hyCase, x *verifkit.Ctx, c15 bool) (fail *verifkit.Failure) {
 					x.Class("steered(known C14-stale-copy)")
 					verifkit.AddCount("steered_known_C14_stale_copy", 1)
 					if err := store.DeleteWithSecondary(st.K); err != nil {
-						delete(model, st.K)
+						model[st.K] = &hyModel{unknown: true}
 						continue
 					}
 					if f := settle(); f != nil {
@@ -340,7 +369,7 @@ func execHybrid(c hyCase, x *verifkit.Ctx, c15 bool) (fail *verifkit.Failure) {
 				}
 			} else {
 				secFailure = true
-				delete(model, st.K) // outcome unknown: stop following this key
+				model[st.K] = &hyModel{unknown: true} // outcome unknown: stop judging this key
 				promotedKeys[st.K] = false
 			}
 		case "overflow":
